@@ -7,7 +7,7 @@ def shape_exchange_checks_question : Bool := true
 def shape_lookup_applies_rule : Bool := true
 def shape_store_filters_before_entry : Bool := true
 def usable_local_probe : List Bool := [false, false, false, false, false]
-def usable_loopback_probe : List Bool := [false, false, false, false, false, false]
+def usable_loopback_probe : List Bool := [false, false, true, false, true, true]
 def usable_public_probe : Bool := true
 
 end SdnsVerif.Gen.C07
